@@ -534,15 +534,17 @@ Definition tr_messages (args : list targ) (sing : mblock) (plural : option mbloc
 Section WithPyInt2.
 Variable pyint : str -> option Z.
 
-(** [resolve_count]: [to_int(block_scope.get("count", 1))], ValueError -> 1;
-    a TypeError (count is nil) escapes. *)
+(** [resolve_count] (as of /repo ef21706):
+    [to_int(block_scope.get("count", 1))]; a count that [to_int] rejects
+    (ValueError, TypeError for nil, OverflowError) counts as 1.  The result
+    type stays [res Z]; it is always [Ok]. *)
 Definition tr_count (d : data) (args : list targ) : res Z :=
   match targ_last TaCount args with
   | None => Ok 1%Z
   | Some p =>
       match to_int pyint (eval_prim d p) with
-      | PyExc ValueError => Ok 1%Z
-      | r => r
+      | Ok z => Ok z
+      | _ => Ok 1%Z
       end
   end.
 
